@@ -4,6 +4,7 @@ import os
 import re
 
 from ..core.engine import Res
+from ..core.facts import AnchorMissing
 from ..core.rules import exhaustive_loop
 from ..core.rules import wire, must_pass, guard, errset, checked_calls, guard_inventory, err_inventory, inventory_check
 from ..core.origins import Origins
@@ -59,6 +60,28 @@ def run(ctx):
               lambda P_: wire(P_, U, r'Group::get_psk$', 1, r'^provisional_state\.applied_proposals\.psks$'), floor=1)
     ctx.check('WIRE', 'receiver: key schedule uses the resolved PSK secret',
               lambda P_: wire(P_, U, r'KeySchedule::from_key_schedule$', 4, r'^Group::get_psk\(self, provisional_state\.applied_proposals\.psks\)\.0$'), floor=1)
+    # "a member that lacks a PSK / holds another value / no longer retains the epoch rejects the commit and stays unchanged":
+    # on the receive path nothing of the group may have been written when PSK resolution or the confirmation-tag comparison
+    # (the point where a wrong PSK value shows) fails. Same analysis as C04, restricted to those failure points.
+    def psk_failure_leaves_group_unchanged(P_):
+        r = Res()
+        ents = [e for e in ('Group::process_incoming_message', 'Group::process_incoming_message_with_time') if P_.has_fn(e)]
+        if not ents:
+            raise AnchorMissing('Group::process_incoming_message not found')
+        sums, _fa = run_entries(P_, ents)
+        frx = re.compile(r'update_key_schedule|Group::get_psk|PskResolver::|psk::|resumption_secret')
+        seen = set()
+        for e in ents:
+            r.site('%s: writes of the group x failure points in PSK resolution / key schedule update' % e)
+            for (path, w, ff), whys in sorted(dirty_report(P_, sums[e], 1).items()):
+                if not frx.search(ff) or (path, w) in seen:
+                    continue
+                seen.add((path, w))
+                r.bad('path=%s|writer=%s' % (path, w),
+                      'a commit rejected while its PSKs are resolved or its confirmation tag is compared does not leave the group unchanged: `%s` is '
+                      'written in `%s` and `%s` can still fail afterwards (%s)' % (path, w, ff, sorted(set(whys))[0]), where=sorted(set(whys))[:3])
+        return r
+    ctx.check('FAIL-ATOMIC', 'a commit rejected for its PSKs leaves the group unchanged', psk_failure_leaves_group_unchanged, floor=1)
     CI = 'Group::commit_internal'
     ctx.check('WIRE', 'committer: PSKs resolved are those of the applied proposals',
               lambda P_: wire(P_, CI, r'Group::get_psk$', 1, r'^GroupState::apply_resolved\(.*\)\.applied_proposals\.psks$'), floor=1)
